@@ -55,6 +55,14 @@ Theorem C20_select_arm_panics :
 Proof. exact select_arm_panics. Qed.
 Print Assumptions C20_select_arm_panics.
 
+(* registering the shutdown handler before the blocking accept (instead of waking the thread) is not enough: with no
+   debugger attached the signal is only noticed after accept returns, and every run hangs in DebugServer::join *)
+Theorem C20_register_first_not_enough :
+  inev v_register_first hung depth_bound (initial false MachNone [LspShutdown; LspExit]) /\
+  inev v_register_first hung depth_bound (initial false MachNone [LspClose]).
+Proof. exact register_first_not_enough. Qed.
+Print Assumptions C20_register_first_not_enough.
+
 (* non-vacuity: the scenario set, and one concrete run of the repaired code *)
 Example C20_scenarios : length all_scripts = 63 /\ length all_initial = 252 /\
   In (initial true MachPaused [LspShutdown; DapDisconnect; LspExit]) all_initial /\
